@@ -334,6 +334,15 @@ def normalise_renames(facts):
         if len(cs) == 1:
             cand[m] = cs[0]
     ren = {m: n for m, n in cand.items() if list(cand.values()).count(n) == 1}
+    # second tier - a *moved* function: the pinned name is gone and exactly one new function anywhere in the same target carries the
+    # same (last-segment) name, e.g. `ColumnParsing::extract_using_regex` turned into `ParsingInput::extract_using_regex`
+    for m in missing:
+        if m in ren:
+            continue
+        last = m.rsplit("::", 1)[1]
+        cs = [sp for sp, raw in fresh if sp.rsplit("::", 1)[1] == last and sp not in ren.values() and "::" in sp]
+        if len(cs) == 1 and [m2 for m2 in missing if m2.rsplit("::", 1)[1] == last] == [m]:
+            ren[m] = cs[0]
     if not ren:
         return {}
     by_new = {n: m for m, n in ren.items()}
@@ -341,6 +350,9 @@ def normalise_renames(facts):
     def fix(path):
         sp = short(path)
         for n, m in by_new.items():
+            if (sp == n or sp.startswith(n + "::")) and n.rsplit("::", 1)[0] != m.rsplit("::", 1)[0]:
+                # moved: generic arguments of the old path are not reconstructed, the short path is authoritative for the rules
+                return m + sp[len(n):]
             if sp == n or sp.startswith(n + "::"):
                 nn, mn = n.rsplit("::", 1)[1], m.rsplit("::", 1)[1]
                 # the last occurrence of `::<new name>` that is followed by the end, generics or a nested item
